@@ -240,9 +240,9 @@ def emit_constants(proj, cls, own, real='double', report=None):
             st = m.end()
             semi = X.Translator._stmt_end(clean, st)
             src_defs[m.group(2)] = (X.norm_type(m.group(1)), m.group(3) or '', clean[st:semi])
-    scalar_first = sorted(ci.consts.items(), key=lambda kv: 0 if (kv[1][0] == 'enum' or kv[1][0] in ('int', 'unsigned', 'unsigned int', 'bool', 'short', 'char', 'real', 'double', 'float', 'long long', 'unsigned long long', 'long')) else 1)
+    scalar_first = sorted(ci.consts.items(), key=lambda kv: 0 if (kv[1][0] == 'enum' or kv[1][0] in ('int', 'unsigned', 'unsigned int', 'bool', 'short', 'char', 'size_t', 'real', 'double', 'float', 'long long', 'unsigned long long', 'long')) else 1)
     for nm, (typ, val) in scalar_first:
-        if typ == 'enum' or typ in ('int', 'unsigned', 'unsigned int', 'bool', 'short', 'char'):
+        if typ == 'enum' or typ in ('int', 'unsigned', 'unsigned int', 'bool', 'short', 'char', 'size_t'):
             if val is None and nm in src_defs:
                 val = src_defs[nm][2]
             if val is None:
@@ -329,6 +329,7 @@ def funcinfo(proj, qualname, cname=None, real='double', select=None, may_throw=N
                     is_method=not mi.is_static, is_const=mi.is_const, cls=cls)
     fi.qualname = qualname
     fi.inline_body = mi.inline_body
+    fi.template_T = getattr(mi, 'template_T', False)
     if mi.inline_body is None:
         # contracts name parameters as the DEFINITION does (the header may differ, e.g. UTMUPS::CheckCoords)
         try:
@@ -367,6 +368,7 @@ def extract_function(proj, fi, functable, real='double', srcrel=None, select=Non
         srcrel = header_of(cls)
         clean = proj.clean(srcrel)
         body_txt = fi.inline_body
+        template_T_def = False
         # locate it for line numbers
         cb, off = X.class_body(clean, cls)
         # find the method text within the class body
@@ -379,6 +381,7 @@ def extract_function(proj, fi, functable, real='double', srcrel=None, select=Non
         clean = proj.clean(srcrel)
         fd = X.find_function_def(clean, fi.qualname, select)
         body_txt = fd.body
+        template_T_def = getattr(fd, 'template_T', False)
         line_body, line_first, line_last = fd.line_body, fd.line_first, fd.line_last
         # parameter NAMES in the definition may differ from the header: use the definition's
         dparams = X.parse_params(fd.params_text, real)
@@ -394,7 +397,7 @@ def extract_function(proj, fi, functable, real='double', srcrel=None, select=Non
             classinfo[c] = proj.classinfo(c, real)
         except Exception:
             pass
-    tr = X.Translator(cls, real, functable, classinfo, report)
+    tr = X.Translator(cls, real, functable, classinfo, report, template_T=(getattr(fi, 'template_T', False) or template_T_def))
     ret = fi.ret_ctype
     b = body_txt
     b = tr.rule_remove(b)
